@@ -42,7 +42,7 @@ package ldb
 //@ func (*batch).Put
 //@   props C11 C19
 //@   requires wfBatch(b) && b.seqNo < 0xffffffff && v != nil
-//@   modifies b, b.puts
+//@   modifies b, b.puts, gmap("ldbbatch")
 //@   ensures b.seqNo == old(b.seqNo) + 1 && sameRef(b.puts, old(b.puts)) && sameRef(b.deletes, old(b.deletes)) && b.b == old(b.b)
 //@   ensures wfBatch(b)
 //@   ensures has(b.puts, strOf(k)) && b.puts[strOf(k)].seq == b.seqNo && sameSlice(b.puts[strOf(k)].data, v)
@@ -52,7 +52,7 @@ package ldb
 //@ func (*batch).Delete
 //@   props C11 C19
 //@   requires wfBatch(b) && b.seqNo < 0xffffffff
-//@   modifies b, b.deletes
+//@   modifies b, b.deletes, gmap("ldbbatch")
 //@   ensures wfBatch(b) && b.seqNo == old(b.seqNo) + 1 && sameRef(b.puts, old(b.puts)) && sameRef(b.deletes, old(b.deletes)) && b.b == old(b.b)
 //@   ensures has(b.deletes, strOf(k)) && b.deletes[strOf(k)] == b.seqNo
 //@   ensures forall qs_ string :: qs_ != strOf(k) ==> has(b.deletes, qs_) == old(has(b.deletes, qs_)) && b.deletes[qs_] == old(b.deletes[qs_])
@@ -75,7 +75,7 @@ package ldb
 //@ func (*levelBucket).Put
 //@   props C11 C18 C19
 //@   requires wfBucketTx(b)
-//@   modifies b.tx.b, b.tx.b.puts
+//@   modifies b.tx.b, b.tx.b.puts, gmap("ldbbatch")
 //@   ensures b.tx.readOnly ==> err == db.ErrWriteNotAllowed
 //@   ensures !b.tx.readOnly && len(value) == 0 ==> err == db.ErrIllegalValue
 //@   ensures !b.tx.readOnly && len(value) > 0 && len(key) == 0 ==> err == db.ErrIllegalKey
@@ -87,7 +87,7 @@ package ldb
 //@ func (*levelBucket).Delete
 //@   props C11 C18 C19
 //@   requires wfBucketTx(b)
-//@   modifies b.tx.b, b.tx.b.deletes
+//@   modifies b.tx.b, b.tx.b.deletes, gmap("ldbbatch")
 //@   ensures b.tx.readOnly ==> err == db.ErrWriteNotAllowed
 //@   ensures !b.tx.readOnly ==> err == nil
 //@   ensures err == nil && len(key) > 0 ==> wfBatch(b.tx.b) && isDeleted(b.tx.b, ikey(b, key))
@@ -174,3 +174,15 @@ package ldb
 //@   loop#1 skip
 //@   loop#2 skip
 //@   at "iter := b.tx.l.ldb.NewIterator(util.BytesPrefix(prefix), nil)" assert[C11] strOf(prefix) == b.path + "_"
+
+// ---- C11/C18: a transaction starts with an empty leveldb batch.  All write transactions share one leveldb.Batch
+// object (innerBatch); newBatch hands it out reset, so records of an earlier transaction that was rolled back (or
+// failed) can never be written by a later commit.
+//@ func newBatch
+//@   props C11 C18 C19
+//@   modifies &innerBatch, gmap("ldbbatch")
+//@   ensures result != nil && fresh(result)
+//@   ensures result.b != nil
+//@   ensures result.puts != nil && result.deletes != nil
+//@   ensures result.seqNo == 0
+//@   ensures[C18] gget("ldbbatch", result.b) == 0
